@@ -35,6 +35,7 @@ BAD = ': #$%^&*!~`"\'=?/{}[]()|<>;\\,.'
 SKELETONS = {
     'article3': ('article', [('-', 'm0'), ('section', 'm1', 'FNa'), ('subsection', 'm2', 'FNb'), ('subsection*', 'm3'), ('section', 'm4', 'FTd', 'FMe'), ('subsubsection', 'm5', 'FNc'), ('section*', 'm6', 'FTf', 'FTg')]),
     'book': ('book', [('-', 'm0'), ('chapter', 'm1'), ('section', 'm2'), ('subsection', 'm3', 'FNa'), ('chapter', 'm4'), ('section', 'm5'), ('chapter*', 'm6', 'FNb')]),
+    'labelled': ('article', [('-', 'm0'), ('section', 'm1', 'LBindex'), ('section', 'm2', 'LBtoc'), ('subsection', 'm3', 'LBsect001'), ('section', 'm4')]),      # labels that equal static / numbered names
     'flat': ('article', [('-', 'm0'), ('-', 'm1')]),
     'sections': ('article', [('section', 'm1'), ('section', 'm2'), ('section', 'm3')]),
 }
@@ -122,7 +123,9 @@ def h_split(e, skel, tmpl, ntitle=2):
             expect_units.append(['document', None, False, [], None])
         body = []
         for m in marks:
-            if m.startswith('FT'):
+            if m.startswith('LB'):
+                body.insert(0, '\\label{%s}' % m[2:])
+            elif m.startswith('FT'):
                 body.append('\\footnotetext{%s}' % _fnword(m))          # a footnote text without a mark of its own
             elif m.startswith('FM'):
                 body.append('\\footnotemark w \\footnotetext{%s}' % _fnword(m))
@@ -131,7 +134,7 @@ def h_split(e, skel, tmpl, ntitle=2):
             else:
                 body.append(m + ' ')
         parts += ['\\%s{' % cmd, title, '}'] + body
-        cur = [name, LEVELS[name], starred, [_fnword(m) if m[:2] in ('FN', 'FT', 'FM') else m for m in marks], title]
+        cur = [name, LEVELS[name], starred, [_fnword(m) if m[:2] in ('FN', 'FT', 'FM') else m for m in marks if not m.startswith('LB')], title]
         expect_units.append(cur)
     parts.append('\\end{document}')
     try:
@@ -244,7 +247,7 @@ def h_stable(e, skel, tmpl):
             if u[0] == '-':
                 parts.append(' '.join(u[1:]) + ' ')
             else:
-                parts += ['\\%s{Title %d}' % (u[0], k)] + [m + ' ' for m in u[1:] if m[:2] not in ('FN', 'FT', 'FM')]
+                parts += ['\\%s{Title %d}' % (u[0], k)] + [m + ' ' for m in u[1:] if m[:2] not in ('FN', 'FT', 'FM', 'LB')]
         parts.append('\\end{document}')
         doc, out = RC.parse(e, parts)
         split = e.int('split', -10, 6)
